@@ -42,26 +42,31 @@ pub struct AllOptional {
     #[deb822(deserialize_with = de_words)]
     words: Option<Vec<String>>,
     plain: Option<u32>,
+    // an UNRENAMED raw identifier: whatever key the macro derives from it, writing and reading must agree
+    r#loop: Option<u32>,
 }
 fn extra_shapes<P: Backend>(o: &mut Outcome, feats: &[String]) where AllOptional: FromDeb822Paragraph<P> + ToDeb822Paragraph<P> {
     let be = P::NAME;
     let api = format!("{} derive on an all-optional struct", be);
     let values = [AllOptional::default(),
-        AllOptional { r#type: Some("deb".into()), words: Some(vec!["a".into(), "b".into()]), plain: Some(7) },
-        AllOptional { r#type: None, words: Some(vec!["x".into()]), plain: None }];
+        AllOptional { r#type: Some("deb".into()), words: Some(vec!["a".into(), "b".into()]), plain: Some(7), r#loop: Some(3) },
+        AllOptional { r#type: None, words: Some(vec!["x".into()]), plain: None, r#loop: Some(0) }];
     for x in values.iter() {
         o.evals += 1;
         let r = guarded(&api, || {
             let p = <AllOptional as ToDeb822Paragraph<P>>::to_paragraph(x);
             let want: Vec<(String, String)> = [x.r#type.clone().map(|v| ("Type".to_string(), v)), x.words.clone().map(|v| ("Words".to_string(), v.join(" "))), x.plain.map(|v| ("plain".to_string(), v.to_string()))].into_iter().flatten().collect();
-            if p.list() != want { return Err(format!("to_paragraph gave {:?}, expected {:?}", p.list(), want)); }
+            let known = |l: Vec<(String, String)>| -> Vec<(String, String)> { l.into_iter().filter(|(k, _)| !k.contains("loop")).collect() };
+            if known(p.list()) != want { return Err(format!("to_paragraph gave {:?}, expected {:?}", p.list(), want)); }
             let back = <AllOptional as FromDeb822Paragraph<P>>::from_paragraph(&p).map_err(|e| format!("own paragraph rejected: {}", e))?;
             if &back != x { return Err(format!("read back {:?}, expected {:?}", back, x)); }
             // update: a paragraph holding all three fields and a foreign one, updated from x
             let mut q = P::build(&[("Other".to_string(), "keep".to_string()), ("Type".to_string(), "old".to_string()), ("Words".to_string(), "o l d".to_string()), ("plain".to_string(), "1".to_string())]);
             <AllOptional as ToDeb822Paragraph<P>>::update_paragraph(x, &mut q);
             let mut w2 = vec![("Other".to_string(), "keep".to_string())]; w2.extend(want.clone());
-            let (mut got, mut exp) = (q.list(), w2); got.sort(); exp.sort();
+            let (mut got, mut exp) = (known(q.list()), w2); got.sort(); exp.sort();
+            let again = <AllOptional as FromDeb822Paragraph<P>>::from_paragraph(&q).map_err(|e| format!("updated paragraph rejected: {}", e))?;
+            if &again != x { return Err(format!("updated paragraph reads as {:?}, expected {:?}", again, x)); }
             if got != exp { return Err(format!("after update_paragraph {:?}, expected {:?}", q.list(), exp)); }
             Ok(())
         });
